@@ -1157,6 +1157,95 @@ fn eval_c19(job: &Job) -> JobResult {
         }
     }
 
+    // (a2) two controls together: a skip_branch() that fires only in some iterations (guarded by a
+    // schedule-dependent result) combined with a stop/explore region or an explicit explore().
+    // Adding the skip can only remove executions in which it fires: L(skip+ctl) ⊆ L(ctl), and
+    // every execution of L(ctl) in which the skip does not fire must still be explored.
+    {
+        let insert_many = |p: &Program, mut ins: Vec<(usize, usize, Op)>| -> (Program, Vec<(usize, usize)>) {
+            // insert in descending position order per thread so earlier positions stay valid;
+            // returns the final positions of the inserted ops
+            ins.sort_by(|a, b| (b.0, b.1).cmp(&(a.0, a.1)));
+            let mut q = p.clone();
+            for (t, pos, op) in &ins {
+                q = crate::families::insert_op(&q, *t, *pos, op.clone());
+            }
+            // final positions: original pos + number of inserted ops at positions <= pos in that thread (stable)
+            let mut asc = ins.clone();
+            asc.sort_by(|a, b| (a.0, a.1).cmp(&(b.0, b.1)));
+            let mut finals = vec![];
+            for (idx, (t, pos, _)) in asc.iter().enumerate() {
+                let before = asc[..idx].iter().filter(|x| x.0 == *t).count();
+                finals.push((*t, pos + before));
+            }
+            (q, finals)
+        };
+        let mut skips: Vec<(usize, usize, Res)> = vec![];
+        for t in 1..k {
+            for i in 1..=p.threads[t].len() {
+                let prev = &p.threads[t][i - 1];
+                if prev.g.is_some() || !matches!(prev.k, K::Load { .. } | K::Swap { .. } | K::FetchAdd { .. } | K::Cas { .. } | K::TryLock { .. }) {
+                    continue;
+                }
+                let vals: std::collections::BTreeSet<Res> = full.outcomes.iter().map(|o| o[t][i - 1]).collect();
+                if vals.len() < 2 {
+                    continue;
+                }
+                for v in vals {
+                    skips.push((t, i, v));
+                }
+            }
+        }
+        // controls: regions in any child thread, and explicit explore
+        let mut ctls: Vec<(Vec<(usize, usize, Op)>, bool, String)> = vec![];
+        for t in 1..k {
+            for i in 0..=p.threads[t].len() {
+                for j in i..=p.threads[t].len() {
+                    ctls.push((vec![(t, i, K::StopExploring.into()), (t, j, K::Explore.into())], false, format!("T{} stop@{} explore@{}", t, i, j)));
+                }
+                ctls.push((vec![(t, i, K::Explore.into())], true, format!("T{} explicit explore@{}", t, i)));
+            }
+        }
+        for (st, si, sv) in skips.iter().take(6) {
+            for (ctl, explicit, cname) in &ctls {
+                let mut c2 = cfg.clone();
+                c2.expect_explicit_explore = *explicit;
+                // stop must come before explore when both are at the same position: order by insertion
+                let mut base_ins = ctl.clone();
+                if base_ins.len() == 2 && base_ins[0].1 == base_ins[1].1 {
+                    // same position: insert explore first so that stop ends up before it
+                    base_ins.swap(0, 1);
+                }
+                let (q_ctl, pos_ctl) = insert_many(p, base_ins.clone());
+                let (s_ctl, r_ctl) = run_ctl(&q_ctl, &c2);
+                let mut with_skip = base_ins.clone();
+                with_skip.push((*st, *si, K::SkipBranch.when(si - 1, *sv)));
+                let (q_both, pos_both) = insert_many(p, with_skip);
+                let (s_both, r_both) = run_ctl(&q_both, &c2);
+                variants += 2;
+                res.loom_iterations += r_ctl.iters + r_both.iters;
+                if s_ctl.verdict != Verdict::Ok || s_both.verdict != Verdict::Ok {
+                    // e.g. stop_exploring() while not exploring: not a placement the property covers
+                    continue;
+                }
+                let name = format!("skip_branch@T{}:{} if {} + {}", st, si, sv, cname);
+                let l_ctl: std::collections::BTreeSet<Outcome> = r_ctl.outcomes.iter().map(|o| project(o, &pos_ctl)).collect();
+                let l_both: std::collections::BTreeSet<Outcome> = r_both.outcomes.iter().map(|o| project(o, &pos_both)).collect();
+                for o in &l_both {
+                    if !l_ctl.contains(o) {
+                        push(&mut res, "skip_widens_exploration", format!("{} {}", name, fmt_outcome(o)), "a skip_branch() in one iteration never adds executions", "outcome only explored with the skip".into());
+                    }
+                }
+                for o in &l_ctl {
+                    if o[*st][si - 1] != *sv && !l_both.contains(o) {
+                        push(&mut res, "skip_leaks_into_other_iterations", format!("{} {}", name, fmt_outcome(o)), "executions in which the skip does not fire are still explored".into(), "outcome lost".into());
+                    }
+                }
+                res.traces_validated += r_both.iters;
+            }
+        }
+    }
+
     // (b) max_branches around the exact need
     for (mb, want_ok) in [(b - 1, false), (b, true), (b + 1, true)] {
         let mut c2 = cfg.clone();
@@ -1256,7 +1345,55 @@ fn sentinel_expectation() -> &'static Result<SeqReport, String> {
     CELL.get_or_init(|| fresh_process_seq(&sentinel_program(), &subject::Cfg::default()))
 }
 
+/// Crash points at the branch limit: the program is run with every max_branches from 1 to its
+/// exact need + 1; below the need the run must fail with the documented panic (and unwind, not
+/// abort, whatever destructors run during the unwind), from the need on it must succeed.
+fn eval_c06_limits(job: &Job) -> JobResult {
+    let p = &job.program;
+    let mut res = JobResult::default();
+    let expect = match sentinel_expectation() {
+        Ok(e) => e.clone(),
+        Err(e) => {
+            res.machinery_error = Some(format!("sentinel fresh-process run failed: {}", e));
+            return res;
+        }
+    };
+    let (sum, full) = run_ctl(p, &job.cfg);
+    res.loom_iterations = full.iters;
+    res.verdict = sum.verdict.short();
+    if sum.verdict != Verdict::Ok {
+        res.violations.push(viol("base_run", sum.verdict.short(), "Ok".into(), sum.message.lines().next().unwrap_or("").to_string(), json!({})));
+        return res;
+    }
+    let b = full.longest;
+    res.states = b as u64;
+    res.transitions = full.iters;
+    res.nontrivial = true;
+    for mb in 1..=b + 1 {
+        let mut c2 = job.cfg.clone();
+        c2.max_branches = mb;
+        let (s2, r2) = run_ctl(p, &c2);
+        res.loom_iterations += r2.iters;
+        let ok = if mb >= b { s2.verdict == Verdict::Ok } else { s2.verdict == Verdict::BranchLimit };
+        if !ok {
+            res.violations.push(viol("limit_failure_not_propagated", format!("max_branches={} need={}", mb, b), if mb >= b { "Ok".into() } else { "panic: Model exceeded maximum number of branches".into() }, format!("{} ({})", s2.verdict.short(), s2.message.lines().next().unwrap_or("")), json!({})));
+            break;
+        }
+        res.traces_validated += 1;
+        let after = seq_report(&sentinel_program(), &subject::Cfg::default());
+        if after.sigs != expect.sigs || after.verdict != expect.verdict {
+            res.violations.push(viol("next_model_not_clean", format!("max_branches={}", mb), "a later model run in the same process equals its fresh-process run".into(), first_diff(&expect.sigs, &after.sigs), json!({})));
+            break;
+        }
+    }
+    res.sample = json!({"program": p.text(), "mode": "every max_branches in 1..=need+1", "need": b, "iterations_unrestricted": full.iters});
+    res
+}
+
 fn eval_c06(job: &Job) -> JobResult {
+    if job.extra.get("mode").and_then(|v| v.as_str()) == Some("limits") {
+        return eval_c06_limits(job);
+    }
     let p = &job.program;
     let mut res = JobResult::default();
     let sc = scm::explore(p, scm::Mode::explore(p), SC_MAX_STATES);
